@@ -161,7 +161,7 @@ PROPS = {
                 "every object the shadow graph reaches must be un-finalised, its block live, its canary intact. Non-trivial = at least one "
                 "collection proven (a garbage object was released) while an object was reachable only through a non-stack path; distinct = distinct trace hashes.",
         "stages": _heap(1, 4000, 120_000, 10),
-        "rare_probes": ["heap.constructor_allocates", "gc.primed_ops", "heap.deep_copy", "heap.deep_copy_children", "heap.destructor_allocations", "heap.box_owns_root", "heap.register_root", "heap.tls_set", "heap.new_root", "heap.link_mapkey", "heap.link_mapval", "heap.link_seq", "heap.copy", "heap.max_chain", "heap.container_clear"],
+        "rare_probes": ["heap.array_of_nodes_store", "heap.array_of_nodes_assign", "heap.constructor_allocates", "gc.primed_ops", "heap.deep_copy", "heap.deep_copy_children", "heap.destructor_allocations", "heap.box_owns_root", "heap.register_root", "heap.tls_set", "heap.new_root", "heap.link_mapkey", "heap.link_mapval", "heap.link_seq", "heap.copy", "heap.max_chain", "heap.container_clear"],
         "assumptions": ["never asserts that something unreachable was collected", "no interior pointers, no pointers in unscanned malloc memory, no cross-thread reachability",
                         "objects allocated while the collector is stopped and raw objects keep nothing alive"],
     },
@@ -175,7 +175,7 @@ PROPS = {
                 "a Box ownership link or a stop/start window in the plan, and objects released by the teardown; "
                 "distinct = distinct trace hashes.",
         "stages": _heap(6, 4000, 120_000, 10),
-        "rare_probes": ["gc.primed_ops", "heap.destructor_allocations", "heap.box_owns_root", "heap.owned_dies_with_swept_owner", "heap.failed_constructor", "heap.new_box", "heap.new_box_chain", "heap.del_box", "heap.del_root", "heap.del_raw", "heap.stop", "heap.new_while_stopped",
+        "rare_probes": ["heap.program_exit_runs", "gc.primed_ops", "heap.destructor_allocations", "heap.box_owns_root", "heap.owned_dies_with_swept_owner", "heap.failed_constructor", "heap.new_box", "heap.new_box_chain", "heap.del_box", "heap.del_root", "heap.del_raw", "heap.stop", "heap.new_while_stopped",
                         "heap.del_while_stopped", "heap.del_unregistered", "heap.freed_at_teardown"],
         "assumptions": ["roots the plan did not del_root and raw objects it did not del_raw are expected to survive", "deleting an object that a live Box still owns is outside the workload",
                         "only the blocks of ledger objects gate; other arena blocks alive after teardown are diagnostics"],
